@@ -163,6 +163,8 @@ theorem tune_round_count (I Nb : Nat) (_hI : 1 ≤ I) :
     · have : (n + 1) % I ≠ 0 := fun h => hd (Nat.dvd_of_mod_eq_zero h)
       simp [hd, this]
 
+example : (List.range 7).countP (fun i => decide ((i + 1) % 3 = 0)) = 7 / 3 := tune_round_count 3 7 (by decide)
+
 lemma tuneInterval_pos' (tuneFreq : Rat) (Nb : Nat) : 1 ≤ tuneInterval tuneFreq Nb := le_max_right _ _
 
 lemma tune_log_length_aux (ds : Nat → Draw V) (g : HG N V) (I Nb : Nat) :
